@@ -31,9 +31,9 @@ Kinds == { "none",
   "plug_add", "plug_remove", "plug_reorder", "plug_source", "plug_config", "plug_config_deep", "plug_config_scalar", "plug_null_vs_nonempty", "plug_config_nested_null", "plug_config_nested_list", "plug_config_nested_el",
   "repo_slash", "repo_dotgit", "repo_case",
   "matrix_add", "matrix_remove", "matrix_setup_value", "matrix_adj_with", "matrix_adj_skip", "matrix_adj_extra", "matrix_dim_rename", "matrix_dim_value", "matrix_dim_anon", "matrix_adj_extra_last", "matrix_shadowed_setup", "matrix_empty_dim_rename", "matrix_mixed_dim_value", "matrix_skiponly_flip", "matrix_skiponly_reason", "matrix_skiponly_removed",
-  "repo", "penv_value", "penv_removed", "penv_shadowed",
+  "repo", "penv_value", "penv_removed", "penv_twin", "penv_shadowed",
   \* semantic: record and key
-  "rec_alg", "fields_drop_mandatory", "fields_drop_env", "fields_add_env", "fields_add_unknown", "fields_empty",
+  "rec_alg", "fields_drop_mandatory", "signed_without_command", "signed_without_matrix", "fields_drop_env", "fields_add_env", "fields_add_unknown", "fields_empty",
   "value_splice", "value_bitflip", "value_attached", "value_attached_tamper", "key_other_same_alg", "key_other_alg", "keyset_without_signer", "keyset_empty", "plug_source_suffix",
   \* non-semantic
   "env_nil_vs_empty", "plugins_nil_vs_empty", "matrix_nil_vs_empty", "matrix_empty_alloc", "matrix_empty_adj", "plug_source_spelling", "plug_cfg_empty_vs_null",
@@ -93,6 +93,8 @@ MutContent(o, kind) ==
 MutVenv(penv, o, kind) ==
     CASE kind = "penv_value" -> IF DOMAIN penv \ DOMAIN o.env.m # {} THEN LET n == CHOOSE x \in DOMAIN penv \ DOMAIN o.env.m : TRUE IN [penv EXCEPT ![n] = "tampered"] ELSE NA
       [] kind = "penv_removed" -> IF DOMAIN penv \ DOMAIN o.env.m # {} THEN LET n == CHOOSE x \in DOMAIN penv \ DOMAIN o.env.m : TRUE IN [x \in DOMAIN penv \ {n} |-> penv[x]] ELSE NA
+      [] kind = "penv_twin" -> IF "A" \in DOMAIN penv \ DOMAIN o.env.m                          \* the signed variable A is gone; a variable literally NAMED env::A carries its value
+                               THEN ("env::A" :> penv["A"]) @@ [x \in DOMAIN penv \ {"A"} |-> penv[x]] ELSE NA
       [] kind = "penv_shadowed" -> IF "B" \in DOMAIN penv THEN penv ELSE NA
       [] kind = "venv_extra_unsigned" -> ("UNRELATED" :> "x") @@ penv
       [] kind = "venv_extra_fieldname" -> ("command" :> "x") @@ ("plugins" :> "y") @@ ("repository_url" :> "z") @@ penv   \* unsigned variables NAMED like signed fields
@@ -100,6 +102,8 @@ MutVenv(penv, o, kind) ==
       [] OTHER -> penv
 FieldOp(kind, signed) ==
     CASE kind = "fields_drop_mandatory" -> "drop:repository_url"
+      [] kind = "signed_without_command" -> "drop:command"        \* (the VALUE is a real signature over the remaining fields: valueop "partial")
+      [] kind = "signed_without_matrix" -> "drop:matrix"
       [] kind = "fields_drop_env" -> IF signed \ Mandatory # {} THEN "drop:" \o (CHOOSE f \in signed \ Mandatory : TRUE) ELSE "na"
       [] kind = "fields_add_env" -> "add:env::UNRELATED"
       [] kind = "fields_add_unknown" -> "add:bogus_field"
@@ -118,7 +122,8 @@ Init ==
          /\ c = [orig |-> o, penv |-> pe, key |-> key, kind |-> kind, pc |-> pc, venv |-> pv, fieldop |-> fop,
                  algop |-> IF kind = "rec_alg" THEN "other" ELSE "same",
                  valueop |-> IF kind = "value_splice" THEN "splice" ELSE IF kind = "value_bitflip" THEN "bitflip"
-                             ELSE IF kind \in {"value_attached", "value_attached_tamper"} THEN "attach" ELSE "same",
+                             ELSE IF kind \in {"value_attached", "value_attached_tamper"} THEN "attach"
+                             ELSE IF kind \in {"signed_without_command", "signed_without_matrix"} THEN "partial" ELSE "same",
                  keyop |-> CASE kind = "key_other_same_alg" -> "other_same_alg" [] kind = "key_other_alg" -> "other_alg"
                              [] kind = "keyset_without_signer" -> "without_signer" [] kind = "keyset_empty" -> "empty"
                              [] kind = "keyset_signer_plus_others" -> "signer_plus" [] OTHER -> "signer"]
